@@ -229,16 +229,22 @@ where
     /// could invalidate the sort order so no general method to mutate the
     /// records is provided.
     ///
-    /// This method offers a limited ability to mutate records in-place
-    /// however because it only permits mutating of the resource record data
-    /// of an existing record which doesn't impact the sort order because the
-    /// data is not part of the sort key.
+    /// This method offers a limited ability to mutate records: the data of
+    /// the first record accepted by the matcher is replaced. As the record
+    /// data is part of the sort key the record is taken out and inserted
+    /// again at the position its new data gives it. If the collection
+    /// already holds a record with the new data the updated record is
+    /// dropped.
     pub fn update_data<F>(&mut self, matcher: F, new_data: D)
     where
         F: Fn(&Record<N, D>) -> bool,
+        N: ToName,
+        D: RecordData + CanonicalOrd,
     {
-        if let Some(rr) = self.records.iter_mut().find(|rr| matcher(rr)) {
+        if let Some(pos) = self.records.iter().position(matcher) {
+            let mut rr = self.records.remove(pos);
             *rr.data_mut() = new_data;
+            let _ = self.insert(rr);
         }
     }
 
